@@ -50,3 +50,927 @@ Proof.
   intros Hlo Hin. destruct t; try reflexivity; unfold conv_int, clamp;
     unfold in_gty in Hin; cbn in Hin; destruct (v <? lo) eqn:A; try lia; reflexivity.
 Qed.
+
+Lemma clamp_clamp lo hi lo' hi' z : lo' <= lo -> lo <= hi -> hi <= hi' ->
+  clamp lo hi (clamp lo' hi' z) = clamp lo hi z.
+Proof.
+  unfold clamp; intros.
+  destruct (z <? lo') eqn:A; destruct (z >? hi') eqn:B; destruct (z <? lo) eqn:C; destruct (z >? hi) eqn:D;
+    repeat match goal with |- context [if ?c then _ else _] => destruct c eqn:? end; lia.
+Qed.
+
+(** * canonical decimal strings and the strconv model *)
+
+Definition is_dig (c : Z) : Prop := 48 <= c <= 57.
+Definition dec_fold (n : Z) (ds : list Z) : Z := fold_left (fun a c => a * 10 + (c - 48)) ds n.
+Definition dec_value (ds : list Z) : Z := dec_fold 0 ds.
+
+(** digits without a leading zero (or exactly "0"): what strconv.FormatUint prints, for a number
+    of ANY magnitude *)
+Inductive canon_udec : list Z -> Z -> Prop :=
+| CU ds : ds <> [] -> Forall is_dig ds -> (hd 0 ds <> 48 \/ ds = [48]) -> canon_udec ds (dec_value ds).
+
+(** optional minus sign: what strconv.FormatInt / big.Int.String print *)
+Inductive canon_dec : list Z -> Z -> Prop :=
+| CD_pos ds v : canon_udec ds v -> canon_dec ds v
+| CD_neg ds v : canon_udec ds v -> canon_dec (45 :: ds) (- v).
+
+Lemma dec_fold_ge n ds : Forall is_dig ds -> 0 <= n -> n <= dec_fold n ds.
+Proof.
+  revert n; induction ds as [|c r IH]; intros n Hd Hn; cbn; [lia|].
+  inversion Hd as [|? ? Hc Hr]; subst. unfold is_dig in Hc.
+  specialize (IH (n * 10 + (c - 48)) Hr). unfold dec_fold in IH. lia.
+Qed.
+
+Lemma is_dig_facts c : is_dig c -> (c =? 95) = false /\ digit_val c = c - 48 /\ 0 <= c - 48 < 10.
+Proof.
+  unfold is_dig, digit_val, is_digit; intros H. repeat split; try lia.
+  replace ((48 <=? c) && (c <=? 57)) with true by lia. reflexivity.
+Qed.
+
+Lemma uloop_dec maxv ds : forall n, Forall is_dig ds -> 0 <= n <= maxv ->
+  uloop 10 maxv ds n = if dec_fold n ds <=? maxv then POk (dec_fold n ds) else PRange maxv.
+Proof.
+  induction ds as [|c r IH]; intros n Hd Hn.
+  - cbn. replace (n <=? maxv) with true by lia. reflexivity.
+  - inversion Hd as [|? ? Hc Hr]; subst.
+    destruct (is_dig_facts c Hc) as (E1 & E2 & E3).
+    cbn [uloop]. rewrite E1, E2.
+    replace (c - 48 =? 255) with false by lia.
+    replace (c - 48 >=? 10) with false by lia.
+    change (dec_fold n (c :: r)) with (dec_fold (n * 10 + (c - 48)) r).
+    destruct (n * 10 + (c - 48) >? maxv) eqn:A.
+    + pose proof (dec_fold_ge (n * 10 + (c - 48)) r Hr ltac:(lia)).
+      replace (dec_fold (n * 10 + (c - 48)) r <=? maxv) with false by lia. reflexivity.
+    + apply IH; [assumption|lia].
+Qed.
+
+Lemma existsb_us_digits ds : Forall is_dig ds -> existsb (Z.eqb 95) ds = false.
+Proof.
+  induction 1 as [|c r Hc _ IH]; [reflexivity|]. cbn [existsb]. rewrite IH.
+  unfold is_dig in Hc. replace (95 =? c) with false by lia. reflexivity.
+Qed.
+
+Lemma parse_uint64_canon ds v : canon_udec ds v ->
+  parse_uint64 ds = if v <=? u64max then POk v else PRange u64max.
+Proof.
+  intros H. destruct H as [ds Hne Hd Hz].
+  destruct ds as [|c r]; [congruence|].
+  destruct Hz as [Hz|Hz].
+  - cbn in Hz. unfold parse_uint64, split_base.
+    replace (c =? 48) with false by lia.
+    rewrite (uloop_dec u64max (c :: r) 0 Hd) by (unfold u64max; lia).
+    fold (dec_value (c :: r)).
+    destruct (dec_value (c :: r) <=? u64max); [|reflexivity].
+    rewrite (existsb_us_digits _ Hd). reflexivity.
+  - inversion Hz; subst. reflexivity.
+Qed.
+
+Lemma canon_udec_nonneg ds v : canon_udec ds v -> 0 <= v.
+Proof. intros [ds' _ Hd _]. apply (dec_fold_ge 0 ds' Hd). lia. Qed.
+
+Lemma canon_udec_head ds v : canon_udec ds v -> exists c r, ds = c :: r /\ is_dig c.
+Proof.
+  intros [ds' Hne Hd _]. destruct ds' as [|c r]; [congruence|].
+  exists c, r. split; [reflexivity|]. inversion Hd; assumption.
+Qed.
+
+(** ParseInt(s, 0, 64) on a canonical decimal of ANY magnitude: the value, or the int64 bound of
+    matching sign with ErrRange *)
+Lemma parse_int64_canon s z : canon_dec s z ->
+  parse_int64 s = if z >? i64max then PRange i64max
+                  else if z <? i64min then PRange i64min else POk z.
+Proof.
+  intros H. destruct H as [ds v Hu|ds v Hu].
+  - destruct (canon_udec_head _ _ Hu) as (c & r & -> & Hc).
+    pose proof (canon_udec_nonneg _ _ Hu) as Hnn.
+    unfold parse_int64. unfold is_dig in Hc.
+    replace (c =? 43) with false by lia. replace (c =? 45) with false by lia.
+    rewrite (parse_uint64_canon _ _ Hu). unfold u64max, i64max, i64min in *.
+    destruct (v <=? 18446744073709551615) eqn:A; cbn [negb andb].
+    + destruct (v >=? 9223372036854775808) eqn:B.
+      * replace (v >? 9223372036854775807) with true by lia. reflexivity.
+      * replace (v >? 9223372036854775807) with false by lia.
+        replace (v <? -9223372036854775808) with false by lia. reflexivity.
+    + replace (v >? 9223372036854775807) with true by lia. reflexivity.
+  - pose proof (canon_udec_nonneg _ _ Hu) as Hnn.
+    unfold parse_int64. change (45 =? 43) with false. change (45 =? 45) with true. cbv iota.
+    rewrite (parse_uint64_canon _ _ Hu). unfold u64max, i64max, i64min in *.
+    replace (- v >? 9223372036854775807) with false by lia.
+    destruct (v <=? 18446744073709551615) eqn:A; cbn [negb andb].
+    + destruct (v >? 9223372036854775808) eqn:B.
+      * replace (- v <? -9223372036854775808) with true by lia. reflexivity.
+      * replace (- v <? -9223372036854775808) with false by lia. reflexivity.
+    + replace (- v <? -9223372036854775808) with true by lia. reflexivity.
+Qed.
+
+(** * What an argument list denotes: the mathematical numbers it presents, in order *)
+
+Inductive denotes (sr : list Z -> Z -> Prop) : arg -> list Z -> Prop :=
+| D_int t v : in_gty t v -> denotes sr (AInt t v) [v]
+| D_ints t vs : Forall (in_gty t) vs -> denotes sr (AInts t vs) vs
+| D_str s z : sr s z -> denotes sr (AStr s) [z]
+| D_strs ss zs : Forall2 sr ss zs -> denotes sr (AStrs ss) zs.
+
+Inductive denotes_all (sr : list Z -> Z -> Prop) : list arg -> list Z -> Prop :=
+| DA_nil : denotes_all sr [] []
+| DA_cons a zs r ws : denotes sr a zs -> denotes_all sr r ws -> denotes_all sr (a :: r) (zs ++ ws).
+
+Lemma concat_res_ok {A B} (f : A -> res (list B)) (g : A -> list B) l :
+  Forall (fun a => f a = inr (g a)) l -> concat_res f l = inr (flat_map g l).
+Proof.
+  induction 1 as [|a r Ha _ IH]; [reflexivity|]. cbn. rewrite Ha, IH. reflexivity.
+Qed.
+
+Lemma concat_res_singletons {A B} (f : A -> res (list B)) (R : A -> B -> Prop) (h : B -> B) l zs :
+  (forall a z, R a z -> f a = inr [z]) -> Forall2 R l zs -> concat_res f l = inr zs.
+Proof.
+  intros Hf H. induction H as [|a z r ws Ha _ IH]; [reflexivity|].
+  cbn. rewrite (Hf _ _ Ha), IH. reflexivity.
+Qed.
+
+(** ** signed *)
+
+Lemma int_of_string_canon w s z : valid_w w -> canon_dec s z ->
+  int_of_string (int_lo w) (int_hi w) s = inr [clamp (int_lo w) (int_hi w) z].
+Proof.
+  intros Hw Hs. destruct (int_bounds w Hw) as (B1 & B2 & B3 & B4).
+  unfold int_of_string. rewrite (parse_int64_canon _ _ Hs). unfold i64max, i64min.
+  destruct (z >? 9223372036854775807) eqn:A.
+  - f_equal. f_equal. rewrite (clamp_above _ _ z) by lia. unfold clamp.
+    destruct (9223372036854775807 <? int_lo w) eqn:C; [lia|].
+    destruct (9223372036854775807 >? int_hi w) eqn:D; lia.
+  - destruct (z <? -9223372036854775808) eqn:B.
+    + f_equal. f_equal. rewrite (clamp_below _ _ z) by lia. unfold clamp.
+      destruct (-9223372036854775808 <? int_lo w) eqn:C; [lia|].
+      destruct (-9223372036854775808 >? int_hi w) eqn:D; lia.
+    + reflexivity.
+Qed.
+
+Lemma int_arg_denotes w a zs : valid_w w -> denotes canon_dec a zs ->
+  int_arg (int_lo w) (int_hi w) a = inr (map (clamp (int_lo w) (int_hi w)) zs).
+Proof.
+  intros Hw H. destruct (int_bounds w Hw) as (B1 & B2 & B3 & B4).
+  destruct H as [t v Hin|t vs Hin|s z Hs|ss zs Hs]; cbn [int_arg map].
+  - rewrite conv_int_clamp by (lia || assumption). reflexivity.
+  - f_equal. apply map_ext_in. intros v Hv. rewrite Forall_forall in Hin.
+    apply conv_int_clamp; [lia|auto].
+  - apply int_of_string_canon; assumption.
+  - induction Hs as [|s z r ws Hs _ IH]; [reflexivity|].
+    cbn [concat_res map]. rewrite (int_of_string_canon w s z Hw Hs), IH. reflexivity.
+Qed.
+
+Lemma concat_int_denotes w args zs : valid_w w -> denotes_all canon_dec args zs ->
+  concat_res (int_arg (int_lo w) (int_hi w)) args = inr (map (clamp (int_lo w) (int_hi w)) zs).
+Proof.
+  intros Hw H. induction H as [|a zs r ws Ha _ IH]; [reflexivity|].
+  cbn [concat_res]. rewrite (int_arg_denotes w a zs Hw Ha), IH, map_app. reflexivity.
+Qed.
+
+Lemma size32_one {A} (x : A) : size32 [x] = 1.
+Proof. reflexivity. Qed.
+
+(** fast path = slow path *)
+Lemma int_fast_is_slow w args v : int_scalar_fast (int_lo w) (int_hi w) args = Some v ->
+  concat_res (int_arg (int_lo w) (int_hi w)) args = inr [v] /\
+  IInt w 1 [v] (size_err (1 * w)) = finish_int w [v].
+Proof.
+  intros H. destruct args as [|a [|b r]]; try discriminate; destruct a; try discriminate.
+  cbn in H. inversion H; subst. split; reflexivity.
+Qed.
+
+(** every presentation of the numbers [zs] produces the item holding [clamp lo hi] of each, in order *)
+Theorem new_int_denotes w args zs : valid_w w -> denotes_all canon_dec args zs ->
+  new_int w args = finish_int w (map (clamp (int_lo w) (int_hi w)) zs).
+Proof.
+  intros Hw H. unfold new_int.
+  replace (valid_int_size w) with true by (symmetry; apply valid_int_size_iff; assumption).
+  cbn [negb]. pose proof (concat_int_denotes w args zs Hw H) as C.
+  destruct (int_scalar_fast (int_lo w) (int_hi w) args) as [v|] eqn:F.
+  - destruct (int_fast_is_slow w args v F) as (C' & E). rewrite C in C'. injection C' as C''. rewrite C''.
+    rewrite E. reflexivity.
+  - rewrite C. reflexivity.
+Qed.
+
+(** the accessors see exactly the stored list when the count fits the int32 field *)
+Lemma seen_stored {A} (vs : list A) : Z.of_nat (length vs) < 2 ^ 31 ->
+  size32 vs = Z.of_nat (length vs) /\ seen (size32 vs) (stored (size32 vs) vs) = vs.
+Proof.
+  intros H. assert (E : size32 vs = Z.of_nat (length vs)).
+  { unfold size32. apply wrapS_id; [lia|]. unfold inS. change (2 ^ (32 - 1)) with (2 ^ 31). lia. }
+  split; [exact E|]. rewrite E. unfold seen, stored.
+  destruct vs as [|a [|b r]]; try reflexivity.
+  cbn [length]. replace (Z.of_nat (S (S (length r))) =? 0) with false by lia.
+  replace (Z.of_nat (S (S (length r))) =? 1) with false by lia. reflexivity.
+Qed.
+
+Lemma size_err_none n : size_err n = None <-> n <= MaxByteSize.
+Proof. unfold size_err. destruct (n >? MaxByteSize) eqn:A; split; intros; try discriminate; try reflexivity; lia. Qed.
+
+Theorem clamp_int_values w args zs : valid_w w -> denotes_all canon_dec args zs ->
+  Z.of_nat (length zs) < 2 ^ 31 ->
+  let it := new_int w args in
+  (error it = None <-> Z.of_nat (length zs) * w <= MaxByteSize) /\
+  type_code it = 10 + w /\ size_of it = Z.of_nat (length zs) /\
+  num_values it = map (clamp (int_lo w) (int_hi w)) zs.
+Proof.
+  intros Hw H Hl. cbv zeta. rewrite (new_int_denotes w args zs Hw H). unfold finish_int.
+  set (vs := map (clamp (int_lo w) (int_hi w)) zs).
+  assert (Hlen : length vs = length zs) by apply map_length.
+  destruct (seen_stored vs ltac:(rewrite Hlen; exact Hl)) as (E1 & E2).
+  cbn [error own_err type_code size_of num_values]. rewrite E2, E1, Hlen.
+  replace (valid_int_size w) with true by (symmetry; apply valid_int_size_iff; assumption).
+  repeat split; try reflexivity; apply size_err_none.
+Qed.
+
+(** ** unsigned *)
+
+Lemma uint_of_string_canon w s z : valid_w w -> canon_udec s z ->
+  uint_of_string (uint_hi w) s = inr [clamp 0 (uint_hi w) z].
+Proof.
+  intros Hw Hs. destruct (uint_bounds w Hw) as (B1 & B2).
+  pose proof (canon_udec_nonneg _ _ Hs) as Hnn.
+  unfold uint_of_string. rewrite (parse_uint64_canon _ _ Hs). unfold u64max.
+  destruct (z <=? 18446744073709551615) eqn:A.
+  - rewrite clampU_clamp by assumption. reflexivity.
+  - rewrite clampU_clamp by lia. f_equal. f_equal.
+    rewrite (clamp_above _ _ z) by lia. unfold clamp.
+    destruct (18446744073709551615 <? 0) eqn:C; [lia|].
+    destruct (18446744073709551615 >? uint_hi w) eqn:D; lia.
+Qed.
+
+Lemma conv_uint_nonneg hi t v : 0 <= v -> conv_uint hi t v = inr (clamp 0 hi v).
+Proof.
+  intros H. unfold conv_uint. replace (v <? 0) with false by lia. rewrite andb_false_r.
+  rewrite clampU_clamp by assumption. reflexivity.
+Qed.
+
+Lemma map_res_ok {A B} (f : A -> res B) (g : A -> B) l :
+  Forall (fun a => f a = inr (g a)) l -> map_res f l = inr (map g l).
+Proof. induction 1 as [|a r Ha _ IH]; [reflexivity|]. cbn. rewrite Ha, IH. reflexivity. Qed.
+
+Lemma uint_arg_denotes w a zs : valid_w w -> denotes canon_udec a zs -> Forall (fun z => 0 <= z) zs ->
+  uint_arg (uint_hi w) a = inr (map (clamp 0 (uint_hi w)) zs).
+Proof.
+  intros Hw H Hnn. destruct H as [t v Hin|t vs Hin|s z Hs|ss zs Hs]; cbn [uint_arg map].
+  - inversion Hnn; subst. rewrite conv_uint_nonneg by assumption. reflexivity.
+  - apply map_res_ok. rewrite Forall_forall in *. intros v Hv. apply conv_uint_nonneg; auto.
+  - apply uint_of_string_canon; assumption.
+  - clear Hnn. induction Hs as [|s z r ws Hs _ IH]; [reflexivity|].
+    cbn [concat_res map]. rewrite (uint_of_string_canon w s z Hw Hs), IH. reflexivity.
+Qed.
+
+Lemma concat_uint_denotes w args zs : valid_w w -> denotes_all canon_udec args zs ->
+  Forall (fun z => 0 <= z) zs ->
+  concat_res (uint_arg (uint_hi w)) args = inr (map (clamp 0 (uint_hi w)) zs).
+Proof.
+  intros Hw H. induction H as [|a zs r ws Ha _ IH]; intros Hnn; [reflexivity|].
+  apply Forall_app in Hnn. destruct Hnn as (N1 & N2).
+  cbn [concat_res]. rewrite (uint_arg_denotes w a zs Hw Ha N1), (IH N2), map_app. reflexivity.
+Qed.
+
+Theorem new_uint_denotes w args zs : valid_w w -> denotes_all canon_udec args zs ->
+  Forall (fun z => 0 <= z) zs ->
+  new_uint w args = finish_uint w (map (clamp 0 (uint_hi w)) zs).
+Proof.
+  intros Hw H Hnn. unfold new_uint.
+  replace (valid_int_size w) with true by (symmetry; apply valid_int_size_iff; assumption).
+  cbn [negb]. rewrite (concat_uint_denotes w args zs Hw H Hnn). reflexivity.
+Qed.
+
+Theorem clamp_uint_values w args zs : valid_w w -> denotes_all canon_udec args zs ->
+  Forall (fun z => 0 <= z) zs -> Z.of_nat (length zs) < 2 ^ 31 ->
+  let it := new_uint w args in
+  (error it = None <-> Z.of_nat (length zs) * w <= MaxByteSize) /\
+  type_code it = 20 + w /\ size_of it = Z.of_nat (length zs) /\
+  num_values it = map (clamp 0 (uint_hi w)) zs.
+Proof.
+  intros Hw H Hnn Hl. cbv zeta. rewrite (new_uint_denotes w args zs Hw H Hnn). unfold finish_uint.
+  set (vs := map (clamp 0 (uint_hi w)) zs).
+  assert (Hlen : length vs = length zs) by apply map_length.
+  destruct (seen_stored vs ltac:(rewrite Hlen; exact Hl)) as (E1 & E2).
+  cbn [error own_err type_code size_of num_values]. rewrite E2, E1, Hlen.
+  replace (valid_int_size w) with true by (symmetry; apply valid_int_size_iff; assumption).
+  repeat split; try reflexivity; apply size_err_none.
+Qed.
+
+(** ** floats *)
+
+(** what each accepted argument presents to a float item: the exact binary64 image of a float32 or
+    of an integer with |v| <= 2^53, the float64 itself, the parsed float64 of a string; float64 and
+    string inputs pass through clampF4 when the item is F4 *)
+Inductive fdenotes (pf : list Z -> option Z) (w : Z) : arg -> list Z -> Prop :=
+| FD_f32 b : fdenotes pf w (AF32 b) [f32_widen b]
+| FD_f32s bs : fdenotes pf w (AF32s bs) (map f32_widen bs)
+| FD_f64 b : fdenotes pf w (AF64 b) [f4 w b]
+| FD_f64s bs : fdenotes pf w (AF64s bs) (map (f4 w) bs)
+| FD_int t v : - two53 <= v <= two53 -> fdenotes pf w (AInt t v) [f64_of_Z v]
+| FD_ints t vs : Forall (fun v => - two53 <= v <= two53) vs -> fdenotes pf w (AInts t vs) (map f64_of_Z vs)
+| FD_str s b : pf s = Some b -> fdenotes pf w (AStr s) [f4 w b]
+| FD_strs ss bs : Forall2 (fun s b => pf s = Some b) ss bs -> fdenotes pf w (AStrs ss) (map (f4 w) bs).
+
+Inductive fdenotes_all (pf : list Z -> option Z) (w : Z) : list arg -> list Z -> Prop :=
+| FDA_nil : fdenotes_all pf w [] []
+| FDA_cons a xs r ys : fdenotes pf w a xs -> fdenotes_all pf w r ys -> fdenotes_all pf w (a :: r) (xs ++ ys).
+
+Lemma conv_float_int_ok t v : - two53 <= v <= two53 -> conv_float_int t v = inr (f64_of_Z v).
+Proof.
+  intros H. unfold conv_float_int.
+  replace (v >? two53) with false by lia. replace (v <? - two53) with false by lia.
+  rewrite andb_false_r. reflexivity.
+Qed.
+
+Lemma float_arg_denotes pf w a xs : fdenotes pf w a xs -> float_arg pf w a = inr xs.
+Proof.
+  intros H. destruct H as [b|bs|b|bs|t v Hv|t vs Hv|s b Hs|ss bs Hs]; cbn [float_arg]; try reflexivity.
+  - rewrite conv_float_int_ok by assumption. reflexivity.
+  - apply map_res_ok. rewrite Forall_forall in *. intros v Hin. apply conv_float_int_ok; auto.
+  - unfold float_of_string. rewrite Hs. reflexivity.
+  - induction Hs as [|s b r ws Hs _ IH]; [reflexivity|].
+    cbn [concat_res map]. unfold float_of_string at 1. rewrite Hs, IH. reflexivity.
+Qed.
+
+Theorem new_float_denotes pf w args xs : w = 4 \/ w = 8 -> fdenotes_all pf w args xs ->
+  new_float pf w args = finish_float w xs.
+Proof.
+  intros Hw H. unfold new_float.
+  replace (valid_float_size w) with true by (unfold valid_float_size; lia). cbn [negb].
+  assert (C : concat_res (float_arg pf w) args = inr xs).
+  { induction H as [|a xs r ys Ha _ IH]; [reflexivity|].
+    cbn [concat_res]. rewrite (float_arg_denotes pf w a xs Ha), IH. reflexivity. }
+  rewrite C. reflexivity.
+Qed.
+
+Theorem float_values pf w args xs : w = 4 \/ w = 8 -> fdenotes_all pf w args xs ->
+  Z.of_nat (length xs) < 2 ^ 31 ->
+  let it := new_float pf w args in
+  (error it = None <-> Z.of_nat (length xs) * w <= MaxByteSize) /\
+  type_code it = 30 + w /\ size_of it = Z.of_nat (length xs) /\ num_values it = xs.
+Proof.
+  intros Hw H Hl. cbv zeta. rewrite (new_float_denotes pf w args xs Hw H). unfold finish_float.
+  destruct (seen_stored xs Hl) as (E1 & E2).
+  cbn [error own_err type_code size_of num_values]. rewrite E2, E1.
+  replace (valid_float_size w) with true by (unfold valid_float_size; lia).
+  repeat split; try reflexivity; apply size_err_none.
+Qed.
+
+(** clampF4 on the ordered abstraction: NaN and the infinities pass; a finite value inside
+    [-MaxFloat32, +MaxFloat32] is kept; a finite value outside becomes the bound of the SAME sign
+    (the nearest one), never anything else. *)
+Ltac zdm := Z.div_mod_to_equations; lia.
+
+Theorem clamp_f4_spec b : 0 <= b < 2 ^ 64 ->
+  (f64_special b = true -> clamp_f4 b = b) /\
+  (f64_special b = false -> f64_mag b <= maxf32_mag -> clamp_f4 b = b) /\
+  (f64_special b = false -> maxf32_mag < f64_mag b ->
+     clamp_f4 b = f64_sign b * 2 ^ 63 + maxf32_mag /\
+     f64_sign (clamp_f4 b) = f64_sign b /\ f64_mag (clamp_f4 b) = maxf32_mag /\
+     f64_special (clamp_f4 b) = false).
+Proof.
+  intros Hb. unfold clamp_f4. repeat split; intros.
+  - rewrite H. reflexivity.
+  - rewrite H. replace (f64_mag b >? maxf32_mag) with false by lia. reflexivity.
+  - rewrite H. replace (f64_mag b >? maxf32_mag) with true by lia. reflexivity.
+  - rewrite H. replace (f64_mag b >? maxf32_mag) with true by lia.
+    unfold f64_sign, maxf32_mag in *. change (2 ^ 64) with 18446744073709551616 in Hb.
+    change (2 ^ 63) with 9223372036854775808. zdm.
+  - rewrite H. replace (f64_mag b >? maxf32_mag) with true by lia.
+    unfold f64_mag, f64_sign, maxf32_mag in *. change (2 ^ 64) with 18446744073709551616 in Hb.
+    change (2 ^ 63) with 9223372036854775808. zdm.
+  - rewrite H. replace (f64_mag b >? maxf32_mag) with true by lia.
+    unfold f64_special, f64_exp, f64_sign, maxf32_mag in *. change (2 ^ 64) with 18446744073709551616 in Hb.
+    change (2 ^ 63) with 9223372036854775808. change (2 ^ 52) with 4503599627370496.
+    apply Z.eqb_neq. zdm.
+Qed.
+
+(** the result of clampF4 is always inside the F4 range (or NaN/Inf) *)
+Corollary clamp_f4_bounded b : 0 <= b < 2 ^ 64 ->
+  f64_special (clamp_f4 b) = true \/ f64_mag (clamp_f4 b) <= maxf32_mag.
+Proof.
+  intros Hb. destruct (clamp_f4_spec b Hb) as (S1 & S2 & S3).
+  destruct (f64_special b) eqn:A.
+  - left. rewrite S1 by reflexivity. exact A.
+  - right. destruct (Z_le_gt_dec (f64_mag b) maxf32_mag) as [L|G].
+    + rewrite S2 by (reflexivity || assumption). assumption.
+    + destruct (S3 eq_refl ltac:(lia)) as (_ & _ & M & _). lia.
+Qed.
+
+(** * Refusals *)
+
+Lemma concat_res_refuse {A B} (f : A -> res (list B)) l a e :
+  In a l -> f a = inl e -> exists e', concat_res f l = inl e'.
+Proof.
+  induction l as [|x r IH]; intros Hin Hf; [contradiction|].
+  cbn. destruct Hin as [->|Hin].
+  - rewrite Hf. eauto.
+  - destruct (f x); [eauto|]. destruct (IH Hin Hf) as (e' & ->). eauto.
+Qed.
+
+Lemma map_res_refuse {A B} (f : A -> res B) l a e :
+  In a l -> f a = inl e -> exists e', map_res f l = inl e'.
+Proof.
+  induction l as [|x r IH]; intros Hin Hf; [contradiction|].
+  cbn. destruct Hin as [->|Hin].
+  - rewrite Hf. eauto.
+  - destruct (f x); [eauto|]. destruct (IH Hin Hf) as (e' & ->). eauto.
+Qed.
+
+Definition refused_int (a : arg) : Prop :=
+  match a with
+  | AInt _ _ | AInts _ _ => False
+  | AStr s => parse_int64 s = PSyntax
+  | AStrs ss => exists s, In s ss /\ parse_int64 s = PSyntax
+  | _ => True          (* float32/float64, bool, their slices, nil, any other type *)
+  end.
+
+Definition refused_uint (a : arg) : Prop :=
+  match a with
+  | AInt t v => gty_signed t = true /\ v < 0
+  | AInts t vs => gty_signed t = true /\ exists v, In v vs /\ v < 0
+  | AStr s => parse_uint64 s = PSyntax
+  | AStrs ss => exists s, In s ss /\ parse_uint64 s = PSyntax
+  | _ => True
+  end.
+
+Definition refused_float (pf : list Z -> option Z) (a : arg) : Prop :=
+  match a with
+  | AF32 _ | AF32s _ | AF64 _ | AF64s _ => False
+  | AInt t v => needs53 t = true /\ (two53 < v \/ v < - two53)
+  | AInts t vs => needs53 t = true /\ exists v, In v vs /\ (two53 < v \/ v < - two53)
+  | AStr s => pf s = None
+  | AStrs ss => exists s, In s ss /\ pf s = None
+  | _ => True
+  end.
+
+Definition refused_bin (a : arg) : Prop :=
+  match a with
+  | AInt TInt v => v < 0 \/ 255 < v
+  | AInt TUint8 _ => False
+  | AInts TUint8 _ => False
+  | AStr s => forall v, parse_int64 s = POk v -> v < 0 \/ 255 < v
+  | _ => True
+  end.
+
+Definition refused_bool (a : arg) : Prop :=
+  match a with ABool _ | ABools _ => False | _ => True end.
+
+Lemma refused_int_inl lo hi a : refused_int a -> exists e, int_arg lo hi a = inl e.
+Proof.
+  destruct a; cbn; intros H; try contradiction; eauto.
+  - unfold int_of_string. rewrite H. eauto.
+  - destruct H as (s & Hin & Hs). apply (concat_res_refuse _ ss s ESyntax Hin).
+    unfold int_of_string. rewrite Hs. reflexivity.
+Qed.
+
+Lemma refused_uint_inl hi a : refused_uint a -> exists e, uint_arg hi a = inl e.
+Proof.
+  destruct a; cbn; intros H; try contradiction; eauto.
+  - destruct H as (Hs & Hv). unfold conv_uint. rewrite Hs. replace (v <? 0) with true by lia. cbn. eauto.
+  - destruct H as (Hs & v & Hin & Hv). apply (map_res_refuse _ vs v ENegative Hin).
+    unfold conv_uint. rewrite Hs. replace (v <? 0) with true by lia. reflexivity.
+  - unfold uint_of_string. rewrite H. eauto.
+  - destruct H as (s & Hin & Hs). apply (concat_res_refuse _ ss s ESyntax Hin).
+    unfold uint_of_string. rewrite Hs. reflexivity.
+Qed.
+
+Lemma conv_float_int_refuse t v : needs53 t = true -> two53 < v \/ v < - two53 ->
+  conv_float_int t v = inl EOverflow.
+Proof.
+  intros Ht Hv. unfold conv_float_int. rewrite Ht.
+  replace ((v >? two53) || (v <? - two53)) with true by lia. reflexivity.
+Qed.
+
+Lemma refused_float_inl pf w a : refused_float pf a -> exists e, float_arg pf w a = inl e.
+Proof.
+  destruct a; cbn; intros H; try contradiction; eauto.
+  - destruct H as (Ht & Hv). rewrite conv_float_int_refuse by assumption. eauto.
+  - destruct H as (Ht & v & Hin & Hv). apply (map_res_refuse _ vs v EOverflow Hin).
+    apply conv_float_int_refuse; assumption.
+  - unfold float_of_string. rewrite H. eauto.
+  - destruct H as (s & Hin & Hs). apply (concat_res_refuse _ ss s ESyntax Hin).
+    unfold float_of_string. rewrite Hs. reflexivity.
+Qed.
+
+Lemma refused_bin_inl a : refused_bin a -> exists e, bin_arg a = inl e.
+Proof.
+  destruct a; cbn; intros H; eauto.
+  - destruct t; try contradiction; eauto.
+    replace ((v <? 0) || (v >? 255)) with true by lia. eauto.
+  - destruct t; try contradiction; eauto.
+  - destruct (parse_int64 s) as [|v|v]; eauto.
+    specialize (H v eq_refl). replace ((v <? 0) || (v >? 255)) with true by lia. eauto.
+Qed.
+
+Lemma refused_bool_inl a : refused_bool a -> exists e, bool_arg a = inl e.
+Proof. destruct a; cbn; intros H; try contradiction; eauto. Qed.
+
+Lemma new_int_refuse w args a : In a args -> refused_int a -> error (new_int w args) <> None.
+Proof.
+  intros Hin Hr. unfold new_int. destruct (valid_int_size w); cbn [negb]; [|discriminate].
+  destruct (int_scalar_fast (int_lo w) (int_hi w) args) as [v|] eqn:F.
+  - destruct args as [|x [|y r]]; try discriminate; destruct x; try discriminate.
+    destruct Hin as [<-|[]]. contradiction.
+  - destruct (refused_int_inl (int_lo w) (int_hi w) a Hr) as (e & He).
+    destruct (concat_res_refuse _ args a e Hin He) as (e' & ->). discriminate.
+Qed.
+
+Lemma new_uint_refuse w args a : In a args -> refused_uint a -> error (new_uint w args) <> None.
+Proof.
+  intros Hin Hr. unfold new_uint. destruct (valid_int_size w); cbn [negb]; [|discriminate].
+  destruct (refused_uint_inl (uint_hi w) a Hr) as (e & He).
+  destruct (concat_res_refuse _ args a e Hin He) as (e' & ->). discriminate.
+Qed.
+
+Lemma new_float_refuse pf w args a : In a args -> refused_float pf a -> error (new_float pf w args) <> None.
+Proof.
+  intros Hin Hr. unfold new_float. destruct (valid_float_size w); cbn [negb]; [|discriminate].
+  destruct (refused_float_inl pf w a Hr) as (e & He).
+  destruct (concat_res_refuse _ args a e Hin He) as (e' & ->). discriminate.
+Qed.
+
+Lemma new_binary_refuse args a : In a args -> refused_bin a -> error (new_binary args) <> None.
+Proof.
+  intros Hin Hr. unfold new_binary. destruct (refused_bin_inl a Hr) as (e & He).
+  destruct (concat_res_refuse _ args a e Hin He) as (e' & ->). discriminate.
+Qed.
+
+Lemma new_boolean_refuse args a : In a args -> refused_bool a -> error (new_boolean args) <> None.
+Proof.
+  intros Hin Hr. unfold new_boolean. destruct (refused_bool_inl a Hr) as (e & He).
+  destruct (concat_res_refuse _ args a e Hin He) as (e' & ->). discriminate.
+Qed.
+
+(** the documented refusals, all families at once *)
+Theorem refusals pf w args a : In a args ->
+  (refused_int a -> error (new_int w args) <> None) /\
+  (refused_uint a -> error (new_uint w args) <> None) /\
+  (refused_float pf a -> error (new_float pf w args) <> None) /\
+  (refused_bin a -> error (new_binary args) <> None) /\
+  (refused_bool a -> error (new_boolean args) <> None).
+Proof.
+  intros Hin. repeat split; intros Hr.
+  - eapply new_int_refuse; eassumption.
+  - eapply new_uint_refuse; eassumption.
+  - eapply new_float_refuse; eassumption.
+  - eapply new_binary_refuse; eassumption.
+  - eapply new_boolean_refuse; eassumption.
+Qed.
+
+Theorem invalid_byte_size pf w args :
+  (~ valid_w w -> error (new_int w args) <> None /\ error (new_uint w args) <> None) /\
+  (~ (w = 4 \/ w = 8) -> error (new_float pf w args) <> None).
+Proof.
+  split; intros H.
+  - assert (E : valid_int_size w = false).
+    { destruct (valid_int_size w) eqn:V; [|reflexivity]. apply valid_int_size_iff in V. contradiction. }
+    unfold new_int, new_uint. rewrite E. cbn. split; discriminate.
+  - assert (E : valid_float_size w = false) by (unfold valid_float_size; lia).
+    unfold new_float. rewrite E. cbn. discriminate.
+Qed.
+
+(** a sign is a refusal for the unsigned family also when it comes as text *)
+Lemma parse_uint64_minus r : parse_uint64 (45 :: r) = PSyntax.
+Proof. reflexivity. Qed.
+Lemma parse_uint64_plus r : parse_uint64 (43 :: r) = PSyntax.
+Proof. reflexivity. Qed.
+
+Theorem strings_too_long s lsh : MaxByteSize < Z.of_nat (length s) ->
+  error (new_ascii s) <> None /\ error (new_jis8 s) <> None /\ error (new_localized lsh s) <> None.
+Proof.
+  intros H. unfold new_ascii, new_jis8, new_localized.
+  replace (Z.of_nat (length s) >? MaxByteSize) with true by lia.
+  replace (Z.of_nat (length s) + 2 >? MaxByteSize) with true by lia. cbn. repeat split; discriminate.
+Qed.
+
+(** * Lists: the cached clean flag *)
+
+Fixpoint first_err (l : list item) : option err :=
+  match l with
+  | [] => None
+  | c :: r => first_some (error c) (first_err r)
+  end.
+
+Lemma error_list cs clean e :
+  error (IList cs clean e) = if clean then None else first_some e (first_err cs).
+Proof. reflexivity. Qed.
+
+Definition is_leaf (it : item) : Prop := match it with IList _ _ _ => False | _ => True end.
+
+Lemma error_leaf it : is_leaf it -> error it = own_err it.
+Proof. destruct it; cbn; intros H; try reflexivity; contradiction. Qed.
+
+Section ItemInd.
+  Variable P : item -> Prop.
+  Hypothesis Hleaf : forall it, is_leaf it -> P it.
+  Hypothesis Hlist : forall cs clean e, Forall P cs -> P (IList cs clean e).
+  Fixpoint item_ind' (it : item) : P it :=
+    match it with
+    | IList cs clean e =>
+      Hlist cs clean e
+        ((fix go (l : list item) : Forall P l :=
+            match l with
+            | [] => Forall_nil P
+            | c :: r => Forall_cons c (item_ind' c) (go r)
+            end) cs)
+    | IInt w s v e => Hleaf (IInt w s v e) I
+    | IUint w s v e => Hleaf (IUint w s v e) I
+    | IFloat w s v e => Hleaf (IFloat w s v e) I
+    | IBool s v e => Hleaf (IBool s v e) I
+    | IBin v e => Hleaf (IBin v e) I
+    | IAscii s e => Hleaf (IAscii s e) I
+    | IJis8 s e => Hleaf (IJis8 s e) I
+    | ILoc l s e => Hleaf (ILoc l s e) I
+    | IEmpty => Hleaf IEmpty I
+    end.
+End ItemInd.
+
+(** Items as the constructors (and the decoder) build them: the cached flag of every list is the
+    conjunction of [childClean] over its children, and only the over-long list carries an own error. *)
+Inductive wf_item : item -> Prop :=
+| WF_leaf it : is_leaf it -> wf_item it
+| WF_list cs : Forall wf_item cs -> wf_item (IList cs (forallb child_clean cs) None)
+| WF_list_err e : wf_item (IList [] false (Some e)).
+
+Lemma first_err_none l : first_err l = None <-> Forall (fun c => error c = None) l.
+Proof.
+  induction l as [|c r IH]; cbn; [split; [constructor|reflexivity]|].
+  destruct (error c) eqn:E; cbn.
+  - split; [discriminate|]. intros H. inversion H; congruence.
+  - rewrite IH. split; intros H; [constructor; assumption|inversion H; assumption].
+Qed.
+
+Lemma is_none_iff {A} (o : option A) : is_none o = true <-> o = None.
+Proof. destruct o; cbn; split; congruence. Qed.
+
+(** childClean says exactly "Error() == nil" on every well-formed item *)
+Lemma child_clean_iff it : wf_item it -> (child_clean it = true <-> error it = None).
+Proof.
+  induction it as [it Hl|cs clean e IH] using item_ind'; intros Hwf.
+  - rewrite (error_leaf it Hl). destruct it; try contradiction; cbn [child_clean own_err]; try apply is_none_iff.
+  - inversion Hwf as [? Hl|cs' Hcs|e']; subst; [contradiction| |].
+    + rewrite error_list. cbn [child_clean is_none andb first_some].
+      destruct (forallb child_clean cs) eqn:F; [split; reflexivity|].
+      split; [discriminate|]. intros H. exfalso.
+      apply first_err_none in H.
+      assert (forallb child_clean cs = true); [|congruence].
+      apply forallb_forall. intros c Hin. rewrite Forall_forall in IH, Hcs, H.
+      apply IH; auto.
+    + cbn. split; discriminate.
+Qed.
+
+Lemma somes_wf cs : Forall (fun o => match o with Some c => wf_item c | None => True end) cs ->
+  Forall wf_item (somes cs).
+Proof.
+  induction 1 as [|o r Ho _ IH]; cbn; [constructor|]. destruct o; [constructor; assumption|assumption].
+Qed.
+
+Definition wf_opt (o : option item) : Prop := match o with Some c => wf_item c | None => True end.
+
+Lemma new_list_wf cs : Forall wf_opt cs -> wf_item (new_list cs).
+Proof.
+  intros H. unfold new_list. destruct (Z.of_nat (length cs) >? MaxByteSize); [apply WF_list_err|].
+  apply WF_list. apply somes_wf. exact H.
+Qed.
+
+(** C16_clean_flag: the O(1) cached answer is the recursive one, for every nesting *)
+Theorem clean_flag cs : Forall wf_opt cs -> Z.of_nat (length cs) <= MaxByteSize ->
+  (error (new_list cs) = None <-> Forall (fun c => error c = None) (somes cs)).
+Proof.
+  intros Hwf Hlen. unfold new_list.
+  replace (Z.of_nat (length cs) >? MaxByteSize) with false by lia.
+  rewrite error_list. pose proof (somes_wf cs Hwf) as W.
+  destruct (forallb child_clean (somes cs)) eqn:F.
+  - split; [|reflexivity]. intros _. rewrite forallb_forall in F. apply Forall_forall.
+    intros c Hin. rewrite Forall_forall in W. apply child_clean_iff; auto.
+  - cbn [first_some]. rewrite first_err_none. split; [auto|].
+    intros H. exfalso. assert (forallb child_clean (somes cs) = true); [|congruence].
+    apply forallb_forall. intros c Hin. rewrite Forall_forall in W, H. apply child_clean_iff; auto.
+Qed.
+
+Theorem list_too_long cs : MaxByteSize < Z.of_nat (length cs) -> error (new_list cs) <> None.
+Proof.
+  intros H. unfold new_list. replace (Z.of_nat (length cs) >? MaxByteSize) with true by lia.
+  cbn. discriminate.
+Qed.
+
+(** every leaf constructor yields a well-formed item *)
+Lemma leaf_constructors_wf pf w args s lsh :
+  wf_item (new_int w args) /\ wf_item (new_uint w args) /\ wf_item (new_float pf w args) /\
+  wf_item (new_binary args) /\ wf_item (new_boolean args) /\ wf_item (new_ascii s) /\
+  wf_item (new_jis8 s) /\ wf_item (new_localized lsh s) /\ wf_item IEmpty.
+Proof.
+  repeat split; apply WF_leaf.
+  - unfold new_int. destruct (negb (valid_int_size w)); [exact I|].
+    destruct (int_scalar_fast _ _ _); [exact I|]. destruct (concat_res _ _); exact I.
+  - unfold new_uint. destruct (negb (valid_int_size w)); [exact I|]. destruct (concat_res _ _); exact I.
+  - unfold new_float. destruct (negb (valid_float_size w)); [exact I|]. destruct (concat_res _ _); exact I.
+  - unfold new_binary. destruct (concat_res _ _); exact I.
+  - unfold new_boolean. destruct (concat_res _ _); exact I.
+  - unfold new_ascii. destruct (_ >? _); exact I.
+  - unfold new_jis8. destruct (_ >? _); exact I.
+  - unfold new_localized. destruct (_ >? _); exact I.
+  - exact I.
+Qed.
+
+(** * Equal *)
+
+Lemma equal_unfold_err a b : has_error a || has_error b = true -> equal a b = false.
+Proof. intros H. destruct a; cbn [equal]; rewrite H; reflexivity. Qed.
+
+(** C16_never_equal *)
+Theorem never_equal x y : error x <> None -> equal x y = false /\ equal y x = false.
+Proof.
+  intros H. assert (E : has_error x = true).
+  { unfold has_error. destruct (error x); [reflexivity|congruence]. }
+  split; apply equal_unfold_err; rewrite E; [reflexivity|apply orb_true_r].
+Qed.
+
+Theorem never_equal_opt x y : error x <> None -> equal_opt (Some x) y = false /\ equal_opt y (Some x) = false.
+Proof.
+  intros H. destruct y as [y|]; cbn; [apply never_equal; assumption|split; reflexivity].
+Qed.
+
+Lemma list_eqb_refl {A} (eqb : A -> A -> bool) (l : list A) :
+  (forall a, eqb a a = true) -> list_eqb eqb l l = true.
+Proof. intros H. induction l as [|a r IH]; cbn; [reflexivity|]. rewrite H, IH. reflexivity. Qed.
+
+Fixpoint all2 (l m : list item) : bool :=
+  match l, m with
+  | [], [] => true
+  | x :: r, y :: s => equal x y && all2 r s
+  | _, _ => false
+  end.
+
+Lemma equal_list ca cla ea cb clb eb :
+  equal (IList ca cla ea) (IList cb clb eb) =
+  if has_error (IList ca cla ea) || has_error (IList cb clb eb) then false
+  else if negb (type_code (IList ca cla ea) =? type_code (IList cb clb eb))
+          || negb (size_of (IList ca cla ea) =? size_of (IList cb clb eb)) then false
+  else all2 ca cb.
+Proof. reflexivity. Qed.
+
+(** an error-free well-formed item is Equal to itself (so identical items are Equal) *)
+Lemma equal_refl it : wf_item it -> error it = None -> equal it it = true.
+Proof.
+  induction it as [it Hl|cs clean e IH] using item_ind'; intros Hwf He.
+  - assert (E : has_error it = false) by (unfold has_error; rewrite He; reflexivity).
+    destruct it; try contradiction; cbn [equal]; rewrite E; cbn [orb];
+      rewrite !Z.eqb_refl; cbn [negb orb]; try reflexivity;
+      try (apply list_eqb_refl; intros; apply Z.eqb_refl).
+    + destruct (w =? 4); apply list_eqb_refl; intros; apply Z.eqb_refl.
+    + apply list_eqb_refl. intros []; reflexivity.
+    + rewrite list_eqb_refl by (intros; apply Z.eqb_refl). reflexivity.
+  - rewrite equal_list.
+    assert (E : has_error (IList cs clean e) = false) by (unfold has_error; rewrite He; reflexivity).
+    rewrite E. cbn [orb]. rewrite !Z.eqb_refl. cbn [negb orb].
+    inversion Hwf as [? Hl|cs' Hcs|e']; subst; [contradiction| |reflexivity].
+    rewrite error_list in He.
+    assert (Hall : Forall (fun c => error c = None) cs).
+    { destruct (forallb child_clean cs) eqn:F.
+      - rewrite forallb_forall in F. apply Forall_forall. intros c Hin.
+        rewrite Forall_forall in Hcs. apply child_clean_iff; auto.
+      - cbn in He. apply first_err_none. exact He. }
+    clear He E Hwf. induction cs as [|c r IHr]; [reflexivity|].
+    inversion IH; inversion Hcs; inversion Hall; subst. cbn [all2].
+    rewrite H1 by assumption. cbn. apply IHr; assumption.
+Qed.
+
+(** * The message gate *)
+
+(** C16_refused *)
+Theorem refused stream function w session sysbytes x : error x <> None ->
+  exists e, new_data_message stream function w session sysbytes (Some x) = inl e.
+Proof.
+  intros H. unfold new_data_message. destruct (stream >? 127); [eauto|].
+  destruct (error x); [eauto|congruence].
+Qed.
+
+Theorem refused_build stream function w session sysbytes x : error x <> None ->
+  exists e, build stream function w session sysbytes (Some x) = inl e.
+Proof. apply refused. Qed.
+
+Definition call_item (c : send_call) : option item :=
+  match c with SendData _ _ _ it | SendAsync _ _ _ it | SendSecs2 _ _ _ it | Reply _ _ _ it => it end.
+
+(** no send entry point hands a message with an errored item to the transport *)
+Theorem refused_send session sysbytes c x : call_item c = Some x -> error x <> None ->
+  exists e, send session sysbytes c = (Some e, []).
+Proof.
+  intros Hc Hx. unfold send.
+  destruct c as [s f w it|s f w it|s f w it|ps pf0 psys it]; cbn in Hc; subst it.
+  - destruct (refused s f w session sysbytes x Hx) as (e & ->). eauto.
+  - destruct (refused s f w session sysbytes x Hx) as (e & ->). eauto.
+  - destruct (refused (s mod 128) f w session sysbytes x Hx) as (e & ->). eauto.
+  - destruct (refused ps ((pf0 + 1) mod 256) false session psys x Hx) as (e & ->). eauto.
+Qed.
+
+(** everything that reaches the wire carries an error-free item *)
+Theorem wire_clean session sysbytes c m : In m (snd (send session sysbytes c)) -> error (m_item m) = None.
+Proof.
+  unfold send.
+  assert (G : forall s f w sb it mm, new_data_message s f w session sb it = inr mm -> error (m_item mm) = None).
+  { intros s f w sb it mm. unfold new_data_message. destruct (s >? 127); [discriminate|].
+    destruct (error (match it with Some x => x | None => IEmpty end)) eqn:E; [discriminate|].
+    destruct (w && (f mod 2 =? 0)); [discriminate|]. intros H. inversion H; subst. exact E. }
+  destruct c as [s f w it|s f w it|s f w it|ps pf0 psys it];
+    match goal with |- In _ (snd (match ?r with _ => _ end)) -> _ => destruct r as [e|mm] eqn:R end;
+    cbn; intros Hin; try contradiction; destruct Hin as [<-|[]]; eapply G; eassumption.
+Qed.
+
+(** the gate accepts exactly: stream <= 127, error-free item, no W-bit on an even function *)
+Theorem gate_accepts stream function w session sysbytes x :
+  (exists m, new_data_message stream function w session sysbytes (Some x) = inr m) <->
+  stream <= 127 /\ error x = None /\ ~ (w = true /\ function mod 2 = 0).
+Proof.
+  unfold new_data_message. destruct (stream >? 127) eqn:S.
+  - split; [intros (m & H); discriminate|lia].
+  - destruct (error x) eqn:E.
+    + split; [intros (m & H); discriminate|intros (_ & H & _); discriminate].
+    + destruct (w && (function mod 2 =? 0)) eqn:W.
+      * split; [intros (m & H); discriminate|]. intros (_ & _ & H). exfalso. apply H. lia.
+      * split; [intros _; repeat split; lia|eauto].
+Qed.
+
+(** * The element count is stored in an int32 *)
+
+Lemma size32_one_nonempty {A} (vs : list A) : size32 vs = 1 -> vs <> [].
+Proof. intros H ->. discriminate. Qed.
+
+(** the faithful model REFUTES "valid arguments yield exactly the supplied values" without the
+    length < 2^31 premise: 2^32+1 booleans give an error-free BooleanItem of one element *)
+Lemma count_wrap_bool n : Z.of_nat n = 4294967297 ->
+  let it := new_boolean [ABools (repeat true n)] in
+  error it = None /\ size_of it = 1 /\ length (bool_values it) = 1%nat.
+Proof.
+  intros Hn. cbv zeta. unfold new_boolean. cbn [concat_res bool_arg app].
+  rewrite app_nil_r. unfold finish_bool.
+  assert (E : size32 (repeat true n) = 1).
+  { unfold size32. rewrite repeat_length, Hn. reflexivity. }
+  rewrite E. cbn [error own_err size_of bool_values seen stored Z.eqb Pos.eqb].
+  repeat split.
+  destruct n as [|k]; [discriminate|]. reflexivity.
+Qed.
+
+Theorem count_wrap_refuted : exists vs : list bool,
+  let it := new_boolean [ABools vs] in
+  error it = None /\ length (bool_values it) <> length vs.
+Proof.
+  exists (repeat true (Z.to_nat 4294967297)).
+  assert (Hn : Z.of_nat (Z.to_nat 4294967297) = 4294967297) by (apply Z2Nat.id; lia).
+  destruct (count_wrap_bool _ Hn) as (E & _ & L). cbv zeta. split; [exact E|].
+  rewrite L, repeat_length. intros C. apply (f_equal Z.of_nat) in C. rewrite Hn in C. discriminate.
+Qed.
+
+(** * Order and shape: every presentation of the same numbers gives the same item *)
+
+Theorem shape_int w a1 a2 zs : denotes_all canon_dec a1 zs -> denotes_all canon_dec a2 zs ->
+  new_int w a1 = new_int w a2.
+Proof.
+  intros H1 H2. destruct (valid_int_size w) eqn:V.
+  - apply valid_int_size_iff in V. rewrite (new_int_denotes w a1 zs V H1), (new_int_denotes w a2 zs V H2).
+    reflexivity.
+  - unfold new_int. rewrite V. reflexivity.
+Qed.
+
+Theorem shape_uint w a1 a2 zs : denotes_all canon_udec a1 zs -> denotes_all canon_udec a2 zs ->
+  Forall (fun z => 0 <= z) zs -> new_uint w a1 = new_uint w a2.
+Proof.
+  intros H1 H2 Hnn. destruct (valid_int_size w) eqn:V.
+  - apply valid_int_size_iff in V.
+    rewrite (new_uint_denotes w a1 zs V H1 Hnn), (new_uint_denotes w a2 zs V H2 Hnn). reflexivity.
+  - unfold new_uint. rewrite V. reflexivity.
+Qed.
+
+Theorem shape_float pf w a1 a2 xs : fdenotes_all pf w a1 xs -> fdenotes_all pf w a2 xs ->
+  new_float pf w a1 = new_float pf w a2.
+Proof.
+  intros H1 H2. destruct (valid_float_size w) eqn:V.
+  - assert (Hw : w = 4 \/ w = 8) by (unfold valid_float_size in V; lia).
+    rewrite (new_float_denotes pf w a1 xs Hw H1), (new_float_denotes pf w a2 xs Hw H2). reflexivity.
+  - unfold new_float. rewrite V. reflexivity.
+Qed.
+
+Corollary shape_equal x y : x = y -> wf_item x -> error x = None -> equal x y = true.
+Proof. intros <- W E. apply equal_refl; assumption. Qed.
+
+Theorem shape_int_equal w a1 a2 zs : denotes_all canon_dec a1 zs -> denotes_all canon_dec a2 zs ->
+  error (new_int w a1) = None -> equal (new_int w a1) (new_int w a2) = true.
+Proof.
+  intros H1 H2 E. apply shape_equal; [eapply shape_int; eassumption| |exact E].
+  apply (leaf_constructors_wf (fun _ => None) w a1 [] 0).
+Qed.
+
+Theorem shape_uint_equal w a1 a2 zs : denotes_all canon_udec a1 zs -> denotes_all canon_udec a2 zs ->
+  Forall (fun z => 0 <= z) zs ->
+  error (new_uint w a1) = None -> equal (new_uint w a1) (new_uint w a2) = true.
+Proof.
+  intros H1 H2 Hnn E. apply shape_equal; [eapply shape_uint; eassumption| |exact E].
+  apply (leaf_constructors_wf (fun _ => None) w a1 [] 0).
+Qed.
+
+Theorem shape_float_equal pf w a1 a2 xs : fdenotes_all pf w a1 xs -> fdenotes_all pf w a2 xs ->
+  error (new_float pf w a1) = None -> equal (new_float pf w a1) (new_float pf w a2) = true.
+Proof.
+  intros H1 H2 E. apply shape_equal; [eapply shape_float; eassumption| |exact E].
+  apply (leaf_constructors_wf pf w a1 [] 0).
+Qed.
